@@ -22,9 +22,13 @@
                            included, are fine (fixes 861badb, 4042692, fccfe9a)
      wf_res r              the translated value is shaped as its type: a bool is a bare expression, a
                            sized value a flat list
-     stmt_guard, body_guard   the ONE decidable side condition left on statements (evaluated on every
-                           program of the correspondence run): no definition of a statement reads a
-                           symbol an earlier definition of the SAME statement assigns (seq_ok)
+     stmt_class s          a SYNTACTIC class of statements: the target is not read by the right-hand
+                           side (fresh_in), or is read only as the unchanged branch of if-expressions
+                           whose tests and other branches do not read it (selfite: `X if c else a`,
+                           what an `if` statement becomes); Return: `_ret` is not read
+     stmt_guard2, body_guard2   in the class, or seq_ok evaluated on the program (no definition of the
+                           statement reads a symbol an earlier definition of it assigns).  For a body
+                           entirely in the class no per-program condition is left
      forall a b, num a = num b -> a = b     the numbering of bit names is injective (enc is)
    A result None of the model is "the Python code raises". *)
 From Coq Require Import List Bool NArith ZArith Arith.
@@ -84,14 +88,14 @@ Proof. split; [apply arg_env_ib|]; reflexivity. Qed.
 
 (* ---------------- statements ---------------- *)
 (* ONE statement.  Hypotheses: an injective numbering; the environment invariants; a declared
-   return type without one-bit sized components; stmt_guard = seq_ok *)
+   return type without one-bit sized components; stmt_guard2 = in the syntactic class, or seq_ok *)
 Theorem C01x_trans_stmt_sound : forall num, (forall a b, num a = num b -> a = b) ->
   forall rho G V rt s ds G' V',
   env_ok num rho G V -> env_canon G -> env_good G -> ty_good rt = true ->
-  stmt_guard num G rt s = true ->
+  stmt_guard2 num G rt s = true ->
   trans_stmt num G rt s = Some (ds, G') -> eval_stmt V rt s = Some V' ->
   env_ok num (run_defs rho (numbered num ds)) G' V' /\ env_canon G' /\ env_good G'.
-Proof. exact trans_stmt_sound. Qed.
+Proof. exact trans_stmt_sound2. Qed.
 Print Assumptions C01x_trans_stmt_sound.
 
 (* the names an Assign / Return binds are the names translate_argument gives to the type, for EVERY
@@ -118,10 +122,10 @@ Print Assumptions C01x_ret_coerce_sound.
 Theorem C01x_trans_body_sound : forall num, (forall a b, num a = num b -> a = b) ->
   forall body rho G V rt ds G' V',
   env_ok num rho G V -> env_canon G -> env_good G -> ty_good rt = true ->
-  body_guard num G rt body = true ->
+  body_guard2 num G rt body = true ->
   trans_body num G rt body = Some (ds, G') -> eval_body V rt body = Some V' ->
   env_ok num (run_defs rho (numbered num ds)) G' V' /\ env_canon G' /\ env_good G'.
-Proof. exact trans_body_sound. Qed.
+Proof. exact trans_body_sound2. Qed.
 Print Assumptions C01x_trans_body_sound.
 
 (* a definition list that passes seq_ok / nodupb is evaluated in order as if simultaneously *)
@@ -136,12 +140,31 @@ Theorem C01x_trans_fun_sound : forall num rho args rt body vs lf v,
   (forall a b, num a = num b -> a = b) ->
   trans_fun num args rt body = Some lf -> eval_fun args rt body vs = Some v ->
   wf_args args = true -> ty_good rt = true -> wf_body body = true ->
-  body_guard num (arg_env args) rt body = true ->
+  body_guard2 num (arg_env args) rt body = true ->
   args_encoded num rho args vs ->
   lf_ret lf = (rt, arg_names [ret_id] rt) /\
   decode rt (map (fun s => run_defs rho (numbered num (lf_defs lf)) (num s)) (arg_names [ret_id] rt)) = Some v.
 Proof. exact trans_fun_sound. Qed.
 Print Assumptions C01x_trans_fun_sound.
+
+(* every statement in the syntactic class: NO per-program condition at all *)
+Theorem C01x_trans_fun_sound_class : forall num rho args rt body vs lf v,
+  (forall a b, num a = num b -> a = b) ->
+  trans_fun num args rt body = Some lf -> eval_fun args rt body vs = Some v ->
+  wf_args args = true -> ty_good rt = true -> wf_body body = true ->
+  forallb stmt_class body = true ->
+  args_encoded num rho args vs ->
+  lf_ret lf = (rt, arg_names [ret_id] rt) /\
+  decode rt (map (fun s => run_defs rho (numbered num (lf_defs lf)) (num s)) (arg_names [ret_id] rt)) = Some v.
+Proof. exact trans_fun_sound_class. Qed.
+Print Assumptions C01x_trans_fun_sound_class.
+
+(* the class implies the side condition; so does seq_ok on every statement *)
+Theorem C01x_class_guard : forall num body G rt,
+  (forallb stmt_class body = true -> body_guard2 num G rt body = true)
+  /\ (body_guard num G rt body = true -> body_guard2 num G rt body = true).
+Proof. exact (fun num body G rt => conj (body_class_guard2 num body G rt) (body_guard_guard2 num body G rt)). Qed.
+Print Assumptions C01x_class_guard.
 
 (* an injective numbering exists *)
 Theorem C01x_enc_injective : forall a b, enc a = enc b -> a = b.
@@ -165,7 +188,7 @@ Definition exrho2 : nat -> bool := rho_of [[1; 0]; [1; 1]; [2; 0]; [2; 3]; [3]]%
 
 Example C01x_trans_fun_ex :
   wf_args exargs = true /\ ty_good (TQint 4) = true /\ wf_body exbody = true
-  /\ body_guard enc (arg_env exargs) (TQint 4) exbody = true
+  /\ forallb stmt_class exbody = true
   /\ args_encoded enc exrho2 exargs [VI 2 3; VI 4 9; VB true]
   /\ (exists lf, trans_fun enc exargs (TQint 4) exbody = Some lf /\ length (lf_defs lf) = 13%nat)
   /\ eval_fun exargs (TQint 4) exbody [VI 2 3; VI 4 9; VB true] = Some (VI 4 9).   (* (3+1 mod 4) * 3 + 9 *)
@@ -245,7 +268,7 @@ Example C01x_tuple_copy_ex :
   /\ eval_fun ex_copy_args TBool ex_copy_body [VT [VI 2 2; VB false]] = Some (VB false).
 Proof. split; [constructor; [vm_compute; reflexivity|constructor]|vm_compute; reflexivity]. Qed.
 
-(* the side condition that is left, seq_ok, does NOT follow from translate_statement: on the
+(* outside the syntactic class the side condition seq_ok is needed: on the
    UN-normalised `a = a + 1; return a` (a: Qint[2]) it emits a.0 := ~a.0; a.1 := a.0 ^ a.1 and the
    list run in order gives 0 for a = 1.  (ast2ast never hands this over: it goes through `__a`.) *)
 Theorem C01x_seq_ok_needed_refuted :
@@ -254,7 +277,7 @@ Theorem C01x_seq_ok_needed_refuted :
     eval_fun ex_self_args (TQint 2) ex_self_body vs = Some v /\
     wf_args ex_self_args = true /\ ty_good (TQint 2) = true /\ wf_body ex_self_body = true /\
     args_encoded enc rho ex_self_args vs /\
-    body_guard enc (arg_env ex_self_args) (TQint 2) ex_self_body = false /\
+    body_guard2 enc (arg_env ex_self_args) (TQint 2) ex_self_body = false /\
     decode (TQint 2) (map (fun s => run_defs rho (numbered enc (lf_defs lf)) (enc s)) (arg_names [ret_id] (TQint 2)))
       <> Some v.
 Proof. exact seq_ok_needed. Qed.
